@@ -7,7 +7,7 @@ slicing, prefix/suffix) through a harness built with all default features off (n
 through the default build, on the same lines; a difference between the two builds is the violation
 (the model's answer is recorded with it; agreement of both with the model is decided by C02…C16).
 """
-import os, sys, json, time, subprocess, concurrent.futures, shutil
+import re, os, sys, json, time, subprocess, concurrent.futures, shutil
 
 VERIF = os.path.dirname(os.path.dirname(os.path.abspath(__file__)))
 REPO = os.environ.get("VERIF_REPO", "/repo")
@@ -176,6 +176,17 @@ def run(tier, seed, replay, proof_phase, write_replay, log):
         path = write_replay(prop, seed, n, dict(property=prop, kind="feature subset does not compile (cargo check on the real crate)",
             mask=m, features=feats, cargo_errors=cargo_bad[m], model_unsatisfied=[list(b) for b in model_bad.get(m, [])],
             replay_cmd=f"cd /repo && cargo check --lib --offline --no-default-features --features '{','.join(feats)}'"))
+        violations.append((path, ""))
+    # "with all default features off (no_std + alloc only)": in the empty configuration no dependency may have its own
+    # `std` feature switched on — a host `cargo check` cannot see that (std is always there on the host), the resolved feature
+    # graph can. (With `json` on, serde_json's std is on in the pinned tree as well: only the empty set is stated.)
+    rc_t, out_t = sh(["cargo", "tree", "--offline", "--no-default-features", "-e", "normal,features"], cwd=REPO, timeout=600)
+    std_nodes = sorted(set(re.findall(r'(\w[\w-]*) feature "std"', out_t))) if rc_t == 0 else []
+    if std_nodes:
+        n += 1
+        path = write_replay(prop, seed, 20 + n, dict(property=prop, kind="the no-default-features configuration is not no_std + alloc only",
+            dependencies_with_std_enabled=std_nodes, cargo_tree=out_t[-1500:],
+            replay_cmd="cd /repo && cargo tree --offline --no-default-features -e normal,features | grep 'feature \"std\"'"))
         violations.append((path, ""))
     # second half
     log("C20: core operations with all default features off vs default build vs model")
